@@ -80,10 +80,15 @@ Definition slice (c : cfg) (a : attr) (s : sel) : option (table V) :=
                            (nth_error (frame a) k)
   end.
 
-(* a.filter_with_ids(l): a fresh attribute with ids l and rows frame.loc[l];
-   not supported for time series (raises) *)
-Definition filter_with_ids (a : attr) (l : list Z) : option (table V) :=
-  if ts a then None else select_ids l (frame a).
+(* a.filter_with_ids(l): a fresh attribute (time series stay time series) with
+   ids l and rows frame.loc[l] *)
+Definition filter_with_ids (a : attr) (l : list Z) : option (table V) := select_ids l (frame a).
+
+(* FEMAttributes.filter_with_ids(l): every member filtered by id, whatever the
+   order each member stores its rows in; raises when one member raises.
+   FEMAttributes.extract_dict(l): the rows a.loc[l].values of every member *)
+Definition cfilter (members : list attr) (l : list Z) : option (list (table V)) :=
+  mapM (fun a => filter_with_ids a l) members.
 
 (* a.ids2indices(l) through the attribute's own id2index frame *)
 Definition ids2indices (a : attr) (l : list Z) : option (list nat) :=
@@ -95,6 +100,9 @@ Definition ids2indices (a : attr) (l : list Z) : option (list nat) :=
 (* a[l] = a.loc[l].values *)
 Definition getitem (c : cfg) (a : attr) (l : list Z) : option (list V) :=
   option_map vals (slice c a (ByIds l)).
+
+Definition cextract (c : cfg) (members : list attr) (l : list Z) : option (list (list V)) :=
+  mapM (fun a => getitem c a l) members.
 
 (* -------------------------------------------------------------- updates *)
 Inductive op :=
